@@ -238,6 +238,47 @@ theorem stale_tick_is_noop (c : Cfg) (w r hh e : Nat) (k : List Frame) (hs : c.s
     (hst : (c.st.wait w).flag = true ∨ (c.st.wait w).timedOut = true) : (step c).st = c.w6_invokeSt hh e :=
   w6b_stale_tick_noop c w r hh e k hs hx hk hst
 
+/-- **stale_done_is_noop**: an invocation of `w`'s `_on_done` closure on a wait state whose `flag` is already set (a second
+    `<name>_done` of the awaited event - an event object fired twice, as `Timer` does - or a stale invocation from a handler
+    list computed before the resumption removed the handler) or that has timed out changes nothing but the log entry of
+    the invocation (all configurations).  Before the fix "waitEvent's _on_done does nothing once the awaited event is
+    known to be done" such an invocation re-registered the consumed callEvent generator: the caller was resumed again at
+    an unrelated `yield` and its event never completed (`waitingHandlers = -1`). -/
+theorem stale_done_is_noop (c : Cfg) (w r hh e : Nat) (k : List Frame) (hs : c.stack = .invoke r hh e :: k)
+    (hx : c.exn = none) (hk : (c.st.handler hh).kind = .waitDone w)
+    (hst : (c.st.wait w).flag = true ∨ (c.st.wait w).timedOut = true) : (step c).st = c.w6_invokeSt hh e :=
+  w6b_stale_done_noop c w r hh e k hs hx hk hst
+
+/-- **stale_event_is_noop**: likewise for `_on_event` once the event was seen (`run`) or the wait timed out. -/
+theorem stale_event_is_noop (c : Cfg) (w r hh e : Nat) (k : List Frame) (hs : c.stack = .invoke r hh e :: k)
+    (hx : c.exn = none) (hk : (c.st.handler hh).kind = .waitEvent w)
+    (hst : (c.st.wait w).run = true ∨ (c.st.wait w).timedOut = true) : (step c).st = c.w6_invokeSt hh e :=
+  w6b_stale_event_noop c w r hh e k hs hx hk hst
+
+/-- **the flag is set once, while the outcome is open**: a step that changes `w.flag` starts with `flag = timedOut = false`
+    and ends with `flag = true`; as `flag` never goes back (`W6S.bits`), `_on_done` acts at most once per wait state. -/
+theorem flag_set_only_when_open (c : Cfg) (w : Nat) (hne : ((step c).st.wait w).flag ≠ (c.st.wait w).flag) :
+    (c.st.wait w).flag = false ∧ (c.st.wait w).timedOut = false ∧ ((step c).st.wait w).flag = true :=
+  w6b_flag_set_when_open c w hne
+
+/-- **the resumption task is registered at most once**: a task of `w`'s waitEvent generator that is new in a task set
+    after a step was registered by `w`'s `_on_done` acting for the first time (`flag = timedOut = false` before the step,
+    `flag = true` after it) - so a consumed callEvent / waitEvent generator is never registered again. -/
+theorem resumption_task_registered_once (s0 : St) (hi : W6InitWait s0) (c : Cfg) (h : W6ReachW s0.hs.length s0 c)
+    (x : Nat) (t' : Task) (hnew : t' ∈ ((step c).st.comp x).tasks) (hold : t' ∉ (c.st.comp x).tasks)
+    (w : Nat) (hg : (step c).st.gen t'.g = .wait w) :
+    (c.st.wait w).flag = false ∧ (c.st.wait w).timedOut = false ∧ ((step c).st.wait w).flag = true := by
+  obtain ⟨r, hh, e, k, hs, hx, hk, _⟩ := (w6b_wait_exc_tasks_only_from_handlers (h.cinv hi) x t' hnew hold).1 w hg
+  have hcomp : ∀ y, (c.w6_invokeSt hh e).comp y = c.st.comp y := by
+    intro y; unfold Cfg.w6_invokeSt; split <;> rfl
+  have open_ : ¬ ((c.st.wait w).flag = true ∨ (c.st.wait w).timedOut = true) := by
+    intro hst
+    rw [w6b_stale_done_noop c w r hh e k hs hx hk hst, hcomp] at hnew
+    exact hold hnew
+  have hfl' := (w6_wait_task_needs_flag (w6_step_cinv c (h.cinv hi)) x t' hnew w hg).1
+  simp only [not_or, Bool.not_eq_true] at open_
+  exact ⟨open_.1, open_.2, hfl'⟩
+
 /-- **a carrier is created only while the outcome is open**: an `.exc w b` record after a step was there before, or is
     the record of the carrier's own task step, or was created by `w`'s own `_on_tick` closure at countdown 0 with
     neither `flag` nor `timedOut` set. -/
